@@ -1589,9 +1589,20 @@ fn emit_calls(seed: u64, tier: Tier, unit: u64, sink: &mut dyn FnMut(Plan) -> bo
                         quotes.pop();
                     }
                     2 => {
-                        // duplicate pair
-                        let q = quotes[0].clone();
-                        quotes.push(q);
+                        // duplicate pair (same or another kind of number), optionally with a
+                        // disconnected extra pair so that the counts still match
+                        let mut q = quotes[0].clone();
+                        if r.chance(0.6) {
+                            let k = r.below(3) as u8;
+                            q.num = gen_num(r, k, q.num.value(), 2, "d_");
+                        }
+                        if r.chance(0.5) && quotes.len() >= 2 {
+                            let last = quotes.len() - 1;
+                            quotes[last].lhs = "xau".into();
+                            quotes[last].rhs = "xag".into();
+                        }
+                        let pos = r.usize_in(0, quotes.len());
+                        quotes.insert(pos, q);
                     }
                     3 => {
                         // reversed duplicate
